@@ -447,6 +447,7 @@ pub fn main_for<P: Prop>(rest: &[String]) -> i32 {
         if let Some(c) = args.cases_override {
             cmd.arg("--cases").arg(c.to_string());
         }
+        cmd.env("VERIF_TIER", args.tier.name());
         let child = cmd.spawn().expect("spawn worker");
         children.push((i, child, out));
     }
